@@ -14,13 +14,16 @@ class Chooser:
         self.script = list(script)
         self.i = 0
         self.first = None
+        self.steps = []
 
     def __call__(self, elements):
         if self.first is None:
             self.first = [e.value for e in elements]
         k = self.script[self.i] if self.i < len(self.script) else 0
         self.i += 1
-        return elements[k % len(elements)]
+        pivot = elements[k % len(elements)]
+        self.steps.append((pivot.value, [e.value for e in elements]))      # the recursion step: its pivot, the elements to place
+        return pivot
 
 
 def run_kwik(D, s, script):
@@ -42,7 +45,7 @@ class Kwik(Suite):
     imports = ["Scheme", "Rank", "KwikSort", "Judge.JC11"]
     judge = "judge_kwik"
     show = "show_kwik"
-    ctype = "scheme * dataset * list nat * list nat * ranking * option ranking"
+    ctype = "scheme * dataset * list nat * list nat * ranking * option ranking * list (nat * list nat)"
 
     def gen(self, tier, rng):
         cases = []
@@ -64,6 +67,26 @@ class Kwik(Suite):
             s = gen.pick_scheme(rng)
             for _ in range(6):
                 cases.append({"s": s, "D": [R] * m, "script": [rng.randrange(n) for _ in range(n)], "target": R})
+        # twins: two elements that are tied wherever they appear and absent together from at least one ranking - their position rows
+        # are identical although tying them is NOT the cheapest placement when T[5] > B[5] (extended measure, generic)
+        for _ in range(40 if tier == "quick" else 500):
+            n = rng.randint(4, 6)
+            names = list(range(n))
+            rng.shuffle(names)
+            x, y = names[0], names[1]
+            others = names[2:]
+            D = []
+            for _ in range(rng.randint(2, 4)):
+                if rng.random() < 0.5:
+                    r = gen.random_ranking(rng, others, 0.8, 0.7) or [[others[0]]]          # both absent
+                else:
+                    r = gen.random_ranking(rng, others, 0.8, 0.7)
+                    r.insert(rng.randint(0, len(r)), [x, y])
+                D.append(r)
+            D.append(gen.random_ranking(rng, others, 0.9, 0.7) or [[others[0]]])
+            script = [rng.randrange(n) for _ in range(n)]
+            script[0] = rng.choice([0, 1, rng.randrange(n)])
+            cases.append({"s": rng.choice([gen.EXTENDED, gen.EXTENDED, gen.GENERIC]), "D": D, "script": script})
         # random larger
         for _ in range(150 if tier == "quick" else 3000):
             D = gen.random_dataset(rng, 8, 6)
@@ -73,7 +96,7 @@ class Kwik(Suite):
 
     def run(self, case):
         ds, ch, cons = run_kwik(case["D"], case["s"], case["script"])
-        out = {"D": gen.observe(ds), "U0": ch.first, "cons": cons, "calls": ch.i}
+        out = {"D": gen.observe(ds), "U0": ch.first, "cons": cons, "calls": ch.i, "steps": ch.steps}
         if "target" in case:
             out["target"] = case["target"]
         else:
@@ -84,7 +107,8 @@ class Kwik(Suite):
 
     def term(self, case, out):
         return (f"({scheme_term(case['s'])}, {dataset_term(out['D'])}, {natlist(out['U0'])}, {natlist(case['script'])}, "
-                f"{ranking_term(out['cons'])}, (Some {ranking_term(out['target'])}))")
+                f"{ranking_term(out['cons'])}, (Some {ranking_term(out['target'])}), "
+                + clist([f"({nat(p)}, {natlist(els)})" for p, els in out["steps"]]) + ")")
 
     def nontrivial(self, case, out):
         return len(out["U0"]) >= 3
